@@ -322,6 +322,15 @@ func c01NewMaterial(t *testing.T, envU *verifEnv, deniedKey *ecdsa.PrivateKey) *
 	leaf2, err := x509.ParseCertificate(der2)
 	c01Must(err)
 	m.chains["main-ip-svc"] = [][]*x509.Certificate{{leaf2, mainCert}}
+	// certificates whose common name is the empty string: under the main CA, under the role CA with an address
+	// extension ("" is listed as automation user), under the main CA with an address extension
+	_, m.chains["km-nameless"] = verifClientChain(mainCA, st.Signer, "", nb, pub, nil)
+	m.chains["ip-nameless"] = envU.ipRestrictedChain("", blocks, pub)
+	der3, err := certgen.GenIPRestrictedX509Cert("", pub, mainCert, st.Signer, blocks, time.Hour, nil, nil)
+	c01Must(err)
+	leaf3, err := x509.ParseCertificate(der3)
+	c01Must(err)
+	m.chains["main-ip-nameless"] = [][]*x509.Certificate{{leaf3, mainCert}}
 	return m
 }
 
@@ -711,7 +720,7 @@ func c01Edit(deniedFP string, cfg []string) func(c *AppConfigFile, dir string) {
 	return func(c *AppConfigFile, dir string) {
 		c.Base.AllowedAuthBackendsForWebUI = []string{"password"}
 		c.Base.AllowedAuthBackendsForCerts = cfg
-		c.Base.AutomationUsers = []string{"svc-automation"}
+		c.Base.AutomationUsers = []string{"svc-automation", ""}
 		c.DenyTrustData.KeyDenyFPsshSha256 = []string{deniedFP}
 	}
 }
@@ -1205,7 +1214,16 @@ func c01CertKinds() []c01CertKind {
 		{"foreign-alice", "foreign-alice", "", 1, nil},
 		{"ip-svc-outside", "ip-svc", c01Outside, 3, nil},
 		{"km-alice-denied", "km-alice-denied", "", 1, nil},
+		// certificates whose common name is the empty string, on requests for alice
+		{"km-nameless", "km-nameless", "", 1, nil},
+		{"ip-nameless-inside", "ip-nameless", c01Inside, 1, nil},
+		{"main-ip-nameless-inside", "main-ip-nameless", c01Inside, 1, nil},
 	}
+}
+
+// a certificate without a name that the address test accepts is ignored: the cookie code decides
+func (ck c01CertKind) passThrough() bool {
+	return ck.name == "ip-nameless-inside" || ck.name == "main-ip-nameless-inside"
 }
 
 var c01OtherUser = "bob"
@@ -1260,7 +1278,7 @@ func c01XShapes() []c01Shape {
 			// what checkAuth is expected to go by: a presented certificate alone; else the cookie if there
 			// is one; the Basic header only without any cookie
 			switch {
-			case ck.chain != "":
+			case ck.chain != "" && !ck.passThrough():
 				if len(ck.proves) > 0 {
 					sh.decisive = &ck.proves[0]
 				}
